@@ -105,7 +105,7 @@ def main():
             rep.sample({"case": j["what"], "status": c["got"]["status"], "verdict": v["clause"]}, cap=6)
         else:
             rep.count("rejected")
-            rep.bad(v["key"], v["detail"], {"tool": j["tool"], "args": j["args"], "data_b64": base64.b64encode(j["data"]).decode()[:4000], "verdict": v})
+            rep.bad(v["key"], v["detail"], {"tool": j["tool"], "args": j["args"], "data_b64": base64.b64encode(j["data"]).decode(), "verdict": v})
     rep.cov["evaluations"] = len(cases)
     rep.cov["distinct_nontrivial"] = len({(c["fmt"], c["fault"], c["got"]["status"], c["got"]["nsamples"]) for c in cases})
     rep.cov["rule"] = "one evaluation = one real decoder run on one faulted file; distinct = different (format, fault kind, status, sample count)"
